@@ -38,7 +38,12 @@ THEOREMS = [P + n for n in (
     'ceiling_scale_invariant', 'ceiling_affine_invariant', 'ceiling_ignores_common_nan',
     'nan_mismatch_rejected', 'degenerate_rdm_contributes_nothing',
     'leaf_texts', 'pool_shift_is_translation', 'normaliser_has_no_scale_threshold',
-    'ceiling_scale_invariant_whitened', 'ceiling_affine_invariant_whitened')]
+    'ceiling_scale_invariant_whitened', 'ceiling_affine_invariant_whitened',
+    # round 3
+    'grouped_score_is_weighted_sum', 'upper_unbeatable_balanced_groups', 'grouped_sup_is_weighted_pool',
+    'cv_ignores_common_nan', 'coded_shortcut_eq_V_form', 'ceiling_coded_shortcut_eq_V_form',
+    'lower_le_upper_whitened_coded', 'ceiling_invariant_whitened_coded',
+    'guard_leaves', 'dispatch_leaves', 'loop_leaves')]
 RULE = ('one PRNG; boot: 2-6 RDMs x 4-7 conditions, values small integers (ties) / quarters / '
         'distinct dyadics / signed integers with zeros, 0-3 entries missing from all RDMs (or, malformed stream, from one RDM), '
         'grouping descriptor singleton / 2-3 groups / one group, methods cosine, corr, rho-a, '
@@ -54,6 +59,10 @@ RULE = ('one PRNG; boot: 2-6 RDMs x 4-7 conditions, values small integers (ties)
         '2^-40..2^40 (and proportional shifts for the correlation measures); '
         'a degenerate stream puts one all-zero (cosine family) / constant (other families) RDM into the stack; '
         'stacks whose pooled prediction is numerically zero/constant are rejected at generation; '
+        'round 3: grouping descriptors with balanced groups (2-3 groups of equal size >= 2) and unequal groups; '
+        'input forms: C / Fortran-ordered float64, int64 dissimilarities (integral unit-scale stacks), descriptors as '
+        'lists / numpy arrays / strings; call forms: keywords, positional, default rdm_descriptor (singleton stacks), '
+        'default method (cosine), default pattern_descriptor (cv without pattern groups); '
         'a case is non-trivial when it has >= 2 RDMs, no exception and differing RDMs; distinct = '
         'distinct (kind, method, data, grouping, folds)')
 BRANCHES = ['kind:boot', 'kind:cv', 'kind:cvgen',
@@ -65,7 +74,11 @@ BRANCHES = ['kind:boot', 'kind:cv', 'kind:cvgen',
             'gen:of_k_rdm', 'pdesc:group', 'cand', 'transform',
             'scale:tiny', 'scale:huge', 'scale:mixed', 'kind:nonzero', 'exc:unknown-method',
             'gen:defaults', 'gen:shared', 'kind:poolonly', 'pool:euclid', 'pool:neg_riem_dist',
-            'pool:kendall', 'pool:tau-b', 'pool:tau-a']
+            'pool:kendall', 'pool:tau-b', 'pool:tau-a',
+            # round 3
+            'groups:balanced', 'groups:unequal', 'wpool', 'fast', 'layout:fortran', 'layout:int',
+            'layout:strdesc', 'layout:arraydesc', 'call:default_desc', 'call:positional',
+            'call:default_method', 'call:cv_default_pdesc']
 ASSUMPTIONS = [
     'no pooled prediction is numerically (but not exactly) zero or constant: the similarity of such a '
     'prediction is rounding noise on both sides (such stacks are rejected at generation, see RULE); '
@@ -111,13 +124,31 @@ def _build(case, rows=None):
     n = case['n']
     nR = len(rows)
     pdesc = case.get('pdesc') or list(range(n))
-    return RDMs(_np_rows(rows),
-                rdm_descriptors={'g': list(case['rdesc']), 'uid': list(range(nR))},
-                pattern_descriptors={'g': list(pdesc), 'cid': list(range(n))})
+    arr = _np_rows(rows)
+    g = list(case['rdesc'])
+    pg = list(pdesc)
+    lay = case.get('layout')
+    if lay == 'fortran':
+        arr = np.asfortranarray(arr)
+    elif lay == 'int':
+        arr = arr.astype(np.int64)
+    elif lay == 'strdesc':      # zero-padded: np.unique's lexicographic order = numeric order
+        g = [f's{v:03d}' for v in g]
+    elif lay == 'arraydesc':
+        g = np.array(g)
+        pg = np.array(pg)
+    return RDMs(arr,
+                rdm_descriptors={'g': g, 'uid': list(range(nR))},
+                pattern_descriptors={'g': pg, 'cid': list(range(n))})
 
 
 def _pname(case):
     return 'g' if case.get('pdesc') else 'index'
+
+
+def _gv(case, vals):
+    """rdm-descriptor values as the case's layout stores them"""
+    return [f's{v:03d}' for v in vals] if case.get('layout') == 'strdesc' else vals
 
 
 def _explicit_sets(case, rdms):
@@ -126,8 +157,8 @@ def _explicit_sets(case, rdms):
     ceil_set, test_set = [], []
     n = case['n']
     for f in case['folds']:
-        te = rdms.subsample('g', f['rtest']) if f.get('rtest') is not None else rdms
-        tr = rdms.subsample('g', f['rtrain']) if f.get('rtrain') is not None else rdms
+        te = rdms.subsample('g', _gv(case, f['rtest'])) if f.get('rtest') is not None else rdms
+        tr = rdms.subsample('g', _gv(case, f['rtrain'])) if f.get('rtrain') is not None else rdms
         if f.get('ptest') is not None:
             te = te.subset_pattern(pname, f['ptest'])
             tr = tr.subset_pattern(pname, f['ptest'])
@@ -241,14 +272,37 @@ def run_impl(case):
             except Exception as exc:  # noqa: BLE001
                 res['pool2'] = _exc(exc)
             try:
-                lo, up = boot_noise_ceiling(rdms, method=m, rdm_descriptor='g')
+                call = case.get('call')
+                if call == 'default_desc':          # rdm_descriptor='index': every RDM its own group
+                    lo, up = boot_noise_ceiling(rdms, method=m)
+                elif call == 'positional':
+                    lo, up = boot_noise_ceiling(rdms, m, 'g')
+                elif call == 'default_method':      # method='cosine'
+                    lo, up = boot_noise_ceiling(rdms, rdm_descriptor='g')
+                else:
+                    lo, up = boot_noise_ceiling(rdms, method=m, rdm_descriptor='g')
                 res['lower'], res['upper'] = float(lo), float(up)
             except Exception as exc:  # noqa: BLE001
                 res.update(_exc(exc))
+            if m in ('cosine', 'corr') and O.common_mask(case['rows']) and len(set(case['rdesc'])) > 1 \
+                    and 'exc' not in res:
+                # the library's own grouped score of the group-weighted pool (round 3)
+                try:
+                    wp = O.wpool(m, [O.dense(r) for r in case['rows']], case['rdesc'])
+                    it = iter(wp)
+                    wpo = [next(it) if k else None for k in O.mask_of(case['rows'][0])]
+                    res['wscore'] = _real_score_grouped(case, wpo)
+                except Exception as exc:  # noqa: BLE001
+                    res['wscore'] = _exc(exc)
             return res
         try:
             ce, te = _explicit_sets(case, rdms) if case['kind'] == 'cv' else _real_sets(case, rdms)
-            lo, up = cv_noise_ceiling(rdms, ce, te, method=m, pattern_descriptor=_pname(case))
+            if case.get('call') == 'cv_default_pdesc':      # pattern_descriptor='index'
+                lo, up = cv_noise_ceiling(rdms, ce, te, method=m)
+            elif case.get('call') == 'positional':
+                lo, up = cv_noise_ceiling(rdms, ce, te, m, _pname(case))
+            else:
+                lo, up = cv_noise_ceiling(rdms, ce, te, method=m, pattern_descriptor=_pname(case))
             return {'lower': float(lo), 'upper': float(up), 'folds': len(te)}
         except Exception as exc:  # noqa: BLE001
             return _exc(exc)
@@ -306,6 +360,11 @@ def model_result(case, answers):
         res['poolw'] = [None if v is None else unfbits(v) for v in a['poolw']]
     if 'folds' in a:
         res['folds'] = a['folds']
+    if a.get('fast') is not None:
+        res['fast'] = (unfbits(a['fast']['lower']), unfbits(a['fast']['upper']))
+    if a.get('wpool') is not None:
+        res['wscore'] = unfbits(a['wpool']['score'])
+        res['wpool'] = [None if v is None else unfbits(v) for v in a['wpool']['pool']]
     return res
 
 
@@ -343,6 +402,18 @@ def compare(case, impl, model):
     for k in ('lower', 'upper'):
         if not close(impl[k], model[k], rtol=tol, atol=tol):
             return f'{k}: impl {impl[k]!r} model {model[k]!r}'
+    if case['kind'] == 'boot' and model.get('fast') is not None:
+        # complete RDMs: the model's transcription of the code path compare() really takes (linear-CKA
+        # shortcut for the whitened measures) — same algorithm, tight tolerance
+        for k, v in zip(('lower', 'upper'), model['fast']):
+            if not close(impl[k], v, rtol=1e-9, atol=1e-9):
+                return f'{k} (coded fast path): impl {impl[k]!r} model {v!r}'
+    if case['kind'] == 'boot' and 'wscore' in impl:
+        if isinstance(impl['wscore'], dict):
+            return f"grouped score of the weighted pool raised {impl['wscore']}"
+        if len(set(case['rdesc'])) > 1 and 'wscore' in model \
+                and not close(impl['wscore'], model['wscore'], rtol=1e-9, atol=1e-9):
+            return f"grouped score of the group-weighted pool: impl {impl['wscore']!r} model {model['wscore']!r}"
     if case['kind'] == 'boot':
         if isinstance(impl.get('pool'), dict):
             return f"pool_rdm raised {impl['pool']}"
@@ -398,7 +469,8 @@ def _viol(what, observed, expected, **feat):
 
 def _real_boot(case, rows):
     from rsatoolbox.inference.noise_ceiling import boot_noise_ceiling
-    rdms = _build(case, rows)
+    # the transformed values are not integers: an integer-typed stack is re-run as float64
+    rdms = _build(dict(case, layout=None) if case.get('layout') == 'int' else case, rows)
     lo, up = boot_noise_ceiling(rdms, method=case['method'], rdm_descriptor='g')
     return float(lo), float(up)
 
@@ -410,6 +482,17 @@ def _real_score(case, cand):
     rdms = _build(case)
     c = RDMs(_np_rows([cand]))
     return float(np.mean(rcompare(c, rdms, method=case['method'])))
+
+
+def _real_score_grouped(case, cand):
+    """the score boot_noise_ceiling's loop gives a candidate: mean within each rdm-descriptor group of the
+    library's compare(candidate, data), then mean over groups"""
+    from rsatoolbox.rdm import RDMs
+    from rsatoolbox.rdm.compare import compare as rcompare
+    rdms = _build(case)
+    c = RDMs(_np_rows([cand]))
+    sims = np.asarray(rcompare(c, rdms, method=case['method']), dtype=float).ravel()
+    return float(np.mean([np.mean([sims[j] for j in g]) for g in O.groups_of(case['rdesc'])]))
 
 
 def _transformed(case):
@@ -491,7 +574,26 @@ def oracle(case):
                              'all RDMs at the test conditions', up, eup, claim='cv-upper')
             return None
         groups = O.groups_of(rdesc)
-        singleton = all(len(g) == 1 for g in groups)
+        # every RDM its own group — or, more generally (theorem upper_unbeatable_balanced_groups), groups of
+        # one common size: all RDMs weigh the same and the coded pool is the optimum
+        singleton = len({len(g) for g in groups}) == 1
+        if len(groups) > 1 and m in ('cosine', 'corr'):
+            # any grouping (theorem grouped_sup_is_weighted_pool): the highest achievable grouped score is
+            # that of the group-weighted pool; the reported upper bound and every candidate stay below it,
+            # and the weighted pool attains it under the library's own compare
+            d = [O.dense(r) for r in rows]
+            ws = O.wsup(m, d, rdesc)
+            if up > ws + tol:
+                return _viol('upper bound above the highest achievable grouped score', up, ws,
+                             claim='grouped-weighted-sup')
+            if isinstance(impl.get('wscore'), float) and not close(impl['wscore'], ws, rtol=tol, atol=tol):
+                return _viol('the group-weighted pool does not attain the highest achievable grouped score',
+                             impl['wscore'], ws, claim='grouped-weighted-sup')
+            for c in list(case.get('cands', [])) + [list(r) for r in rows]:
+                sc = _real_score_grouped(case, c)
+                if sc > ws + tol:
+                    return _viol('a candidate RDM scores above the group-weighted optimum', sc, ws,
+                                 claim='grouped-weighted-sup')
         if singleton and len(groups) > 1:
             if m in OPTIMAL:
                 sup = O.sup_mean_sim(m, [O.dense(r) for r in rows])
@@ -573,6 +675,9 @@ def features(case, impl):
         gk = 'singleton'
     else:
         gk = 'multi'
+    gsub = None
+    if gk == 'multi':
+        gsub = 'balanced' if len({len(g) for g in groups}) == 1 else 'unequal'
     if not O.common_mask(rows):
         nk = 'mismatch'
     elif any(v is None for v in rows[0]):
@@ -580,6 +685,16 @@ def features(case, impl):
     else:
         nk = 'none'
     br = ['kind:' + case['kind'], 'm:' + case['method'], 'groups:' + gk, 'nan:' + nk]
+    if gsub:
+        br.append('groups:' + gsub)
+    if case.get('layout'):
+        br.append('layout:' + case['layout'])
+    if case.get('call'):
+        br.append('call:' + case['call'])
+    if impl and isinstance(impl.get('wscore'), float):
+        br.append('wpool')
+    if case['kind'] == 'boot' and nk == 'none' and not (impl and 'exc' in impl):
+        br.append('fast')
     if _has_ties(rows):
         br.append('ties')
     if case['kind'] == 'cv':
@@ -606,6 +721,7 @@ def features(case, impl):
     return {'kind': case['kind'], 'method': case['method'], 'n_rdm': len(rows), 'n_cond': case['n'],
             'groups': gk, 'nan': nk, 'style': case.get('style'), 'gen': case.get('gen'),
             'degenerate': case.get('degenerate') is not None, 'scale': case.get('scale'),
+            'layout': case.get('layout'), 'call': case.get('call'), 'group_sizes': gsub,
             'shape': case.get('shape'), 'branches': br}
 
 
@@ -617,6 +733,7 @@ def nontrivial_key(case, impl):
     if all(r == case['rows'][0] for r in case['rows']):
         return None
     return [case['kind'], case['method'], case['rows'], case['rdesc'], case.get('pdesc'),
+            case.get('layout'), case.get('call'),
             case.get('folds'), case.get('gen'), case.get('params'), case.get('seed')]
 
 
@@ -670,6 +787,11 @@ def _rdesc(rng, nR, kind):
         return vals
     if kind == 'one':
         return [3] * nR
+    if kind == 'balanced':      # nR = k * size, size >= 2, shuffled membership
+        size = 2 if nR % 2 == 0 else 3
+        g = [v for v in range(nR // size) for _ in range(size)]
+        rng.shuffle(g)
+        return [5 + 2 * v for v in g]
     k = rng.randint(2, max(2, min(3, nR - 1)))
     while True:
         g = [rng.randint(0, k - 1) for _ in range(nR)]
@@ -741,18 +863,33 @@ def _add_nan(rng, rows, n, how):
     return rows
 
 
-def gen_boot(rng, method=None, groups=None, nan=None, big=False, degenerate=False, scale=None):
+def gen_boot(rng, method=None, groups=None, nan=None, big=False, degenerate=False, scale=None,
+             layout=None, call=None):
     for _ in range(200):
         m = method or rng.choice(METHODS)
+        if call == 'default_method':
+            m = 'cosine'
         nR = rng.randint(2, 7 if big else 6)
         n = rng.randint(4, 8 if big else 7)
         style = rng.choice(['ties', 'quarters', 'distinct', 'signed'])
-        gk = groups or rng.choice(['singleton', 'singleton', 'multi', 'one'])
+        gk = groups or rng.choice(['singleton', 'singleton', 'multi', 'one', 'balanced'])
+        if call == 'default_desc':
+            gk = 'singleton'
+        if layout == 'int':
+            style, scale, nan = rng.choice(['ties', 'signed']), 'unit', 'none'
         if gk == 'multi' and nR < 3:
             nR = 3
+        if gk == 'balanced':
+            nR = rng.choice([4, 6] + ([6] if big else []))
         nk = nan or rng.choice(['none', 'none', 'common'])
         rows = _stack(rng, nR, n, style, rng.random() < 0.6)
         case = {'kind': 'boot', 'method': m, 'n': n, 'rdesc': _rdesc(rng, nR, gk), 'style': style}
+        if call == 'default_desc':
+            case['rdesc'] = list(range(nR))     # what rdm_descriptor='index' means
+        if layout:
+            case['layout'] = layout
+        if call:
+            case['call'] = call
         if degenerate:
             # one data RDM is all zero (cosine family) / constant (correlation and rank families)
             j = rng.randrange(nR)
@@ -778,7 +915,7 @@ def _split(rng, vals, k):
     return [vals[i::k] for i in range(k)]
 
 
-def gen_cv(rng, method=None, shape=None, scale=None):
+def gen_cv(rng, method=None, shape=None, scale=None, no_pdesc=False):
     for _ in range(200):
         m = method or rng.choice(METHODS)
         shape_ = shape or rng.choice(['k_fold', 'k_fold_rdm', 'random', 'loo_pattern'])
@@ -788,7 +925,7 @@ def gen_cv(rng, method=None, shape=None, scale=None):
         grouped_r = rng.random() < 0.4 and nR >= 4
         rdesc = _rdesc(rng, nR, 'multi') if grouped_r else _rdesc(rng, nR, 'singleton')
         pdesc = None
-        if shape_ == 'loo_pattern' or (shape_ != 'k_fold_rdm' and rng.random() < 0.3):
+        if not no_pdesc and (shape_ == 'loo_pattern' or (shape_ != 'k_fold_rdm' and rng.random() < 0.3)):
             k = rng.randint(2, 3) if n >= 6 else 2
             while True:
                 g = [rng.randint(0, k - 1) for _ in range(n)]
@@ -965,6 +1102,21 @@ def generate(rng, tier):
                 yield gen_boot(rng, m, 'singleton', None, scale=sc)
             yield gen_boot(rng, m, 'multi', None, scale='mixed')
             yield gen_cv(rng, m, None, scale=rng.choice(['tiny', 'huge', 'mixed']))
+        # round 3: balanced / unequal groups, input forms, call forms
+        for m in METHODS:
+            yield gen_boot(rng, m, 'balanced', None)
+            yield gen_boot(rng, m, 'multi', None, layout=rng.choice(['fortran', 'strdesc', 'arraydesc']))
+        for lay in ('fortran', 'int', 'strdesc', 'arraydesc'):
+            for m in ('cosine', 'corr', rng.choice(METHODS[2:])):
+                yield gen_boot(rng, m, rng.choice([None, 'singleton']), None, layout=lay)
+        for call in ('default_desc', 'positional', 'default_method'):
+            yield gen_boot(rng, None, None, None, call=call)
+            yield gen_boot(rng, None, None, None, call=call)
+        for m in rng.sample(METHODS, 3):
+            c = gen_cv(rng, m, rng.choice(['k_fold', 'k_fold_rdm', 'random']), no_pdesc=True)
+            yield dict(c, call='cv_default_pdesc')
+            c = gen_cv(rng, m, None)
+            yield dict(c, call='positional', layout=rng.choice(['fortran', 'strdesc', 'arraydesc']))
         for m in METHODS:
             for shape in ('k_fold', 'k_fold_rdm', 'random', 'loo_pattern'):
                 yield gen_cv(rng, m, shape)
@@ -981,7 +1133,8 @@ def search(rng, tier):
     while True:
         r = rng.random()
         if r < 0.6:
-            yield gen_boot(rng)
+            yield gen_boot(rng, layout=rng.choice([None, None, None, 'fortran', 'int', 'strdesc', 'arraydesc']),
+                           call=rng.choice([None, None, None, 'default_desc', 'positional', 'default_method']))
         elif r < 0.8:
             yield gen_cv(rng)
         else:
